@@ -1,8 +1,47 @@
+import Driver.C01
+import Driver.C02
+import Driver.C03
 import Driver.C04
+import Driver.C05
+import Driver.C06
+import Driver.C07
+import Driver.C08
+import Driver.C09
+import Driver.C10
+import Driver.C11
+import Driver.C12
+import Driver.C13
+import Driver.C14
+import Driver.C15
+import Driver.C16
+import Driver.C17
+import Driver.C18
+import Driver.C19
+import Driver.C20
 
+/-- `vdriver <Cxx>`: reads the harness line protocol on stdin (see Driver/Util.lean). -/
 def main (args : List String) : IO UInt32 := do
   match args with
+  | ["C01"] => Driver.C01.run
+  | ["C02"] => Driver.C02.run
+  | ["C03"] => Driver.C03.run
   | ["C04"] => Driver.C04.run
+  | ["C05"] => Driver.C05.run
+  | ["C06"] => Driver.C06.run
+  | ["C07"] => Driver.C07.run
+  | ["C08"] => Driver.C08.run
+  | ["C09"] => Driver.C09.run
+  | ["C10"] => Driver.C10.run
+  | ["C11"] => Driver.C11.run
+  | ["C12"] => Driver.C12.run
+  | ["C13"] => Driver.C13.run
+  | ["C14"] => Driver.C14.run
+  | ["C15"] => Driver.C15.run
+  | ["C16"] => Driver.C16.run
+  | ["C17"] => Driver.C17.run
+  | ["C18"] => Driver.C18.run
+  | ["C19"] => Driver.C19.run
+  | ["C20"] => Driver.C20.run
   | _ => do
     IO.eprintln "usage: vdriver <Cxx> < lines"
     return 2
